@@ -25,7 +25,7 @@ def spec(tier, seed):
         csrs += [CsrShape(attrs=2, san=(0, 4)), CsrShape(custom=2, custom_crit=3, attrs=1), CsrShape(eku=(7, 1), attrs=2, strlen=3)]
         crls += [CrlShape(revoked=(r,), invalidity=1) for r in (1, 5, 8, 10)] + [CrlShape(idp=1, idp_uris=2), CrlShape(kid=1, revoked=(3,))]
     qs = [cert_query("c04", s, O_C04) for s in certs] + [csr_query("c04", s, O_C04) for s in csrs] + [crl_query("c04", s, O_C04) for s in crls]
-    qs += u.ku_queries("c04", 2, tier) + u.serial_queries("c04", tier) + u.algid_queries("c04")
+    qs += u.ku_queries("c04", 2, tier, seed) + u.serial_queries("c04", tier) + u.algid_queries("c04")
     qs.append(Query(name="c04_spki", body="    units::spki_strict();", unwind=60, family="spki", functions=["rcgen::KeyPair::public_key_der"],
                     shape="KeyPair::public_key_der for every table algorithm (concrete) with 2 symbolic key bytes: strict DER"))
     return {"queries": qs, "exhaustive": False,
